@@ -266,6 +266,8 @@ class G:
         self.r = rng
         self.maxdepth = maxdepth
         self.names = ['x', 'v', 'y', 'owner', 'total', 'count', '_priv', 'limit']
+        if rng.random() < 0.15:
+            self.names += ['z\u00e4hler', '\u00f1', '_\u00e9t\u00e9']     # identifiers that start with / contain multi-byte characters
         self.arrs = ['a', 'arr']
         self.uid = 0
 
@@ -295,10 +297,12 @@ class G:
         if k < 12:
             return '%s %s %s' % (self.paren(e()), r.choice(binops), self.paren(e()))
         if k == 12:
-            return '(%s)' % e()
+            # redundant parentheses, sometimes several levels
+            return self._parens(e())
         if k == 13:
             return '%s(%s)' % (r.choice(['f', 'g', 'keccak256', 'require', 'address', 'uint8', 'payable', 'selfdestruct',
-                                        'tok.transfer', 'owner.add', 'total.sub', 'x.mul', 'abi.encode', 'bytes']),
+                                        'tok.transfer', 'owner.add', 'total.sub', 'x.mul', 'abi.encode', 'bytes',
+                                        'uint160', 'uint256', 'bytes32', 'bytes20', 'int128', 'bool', 'string', 'check', 'emit_']),
                                ', '.join(e() for _ in range(r.randrange(0, 3))))
         if k == 14:
             return '%s[%s]' % (r.choice(self.arrs), e())
@@ -339,6 +343,10 @@ class G:
         if k == 32:
             return 'msg.sender %s owner' % r.choice(['==', '!='])
         return 'x'
+
+    def _parens(self, s):
+        n = 1 if self.r.random() < 0.6 else self.r.choice([2, 2, 3])
+        return '(' * n + s + ')' * n
 
     def paren(self, s):
         if re.match(r'^[A-Za-z_0-9.]+$', s) or (s.startswith('(') and s.endswith(')') and s.count('(') == 1):
